@@ -572,6 +572,8 @@ impl MediaCond {
 pub enum ImportForm {
     Str(String),
     UrlFn(String),
+    /// `URL("..")` / `Url("..")`: the function name in another letter case
+    UrlFnNamed(String, String),
     Url(String),
 }
 
@@ -851,6 +853,11 @@ impl Node {
                         e.open(Bracket::Func("url".into()));
                         e.decoy(TokKind::Str(s.clone()));
                         e.close(Bracket::Func("url".into()));
+                    }
+                    ImportForm::UrlFnNamed(name, s) => {
+                        e.open(Bracket::Func(name.clone()));
+                        e.decoy(TokKind::Str(s.clone()));
+                        e.close(Bracket::Func(name.clone()));
                     }
                     ImportForm::Url(s) => e.decoy(TokKind::Url(s.clone())),
                 }
